@@ -214,3 +214,9 @@ package texttable
 //@ global propDimensions immutable -- private property key, only compared
 //@ global propLinesWidths immutable -- private property key, only compared
 //@ global ErrNotCellProperties immutable -- an errors.New value, only returned
+
+//@ func (*propertyKey).String
+//@   tags C09
+//@   requires p != nil
+//@   assigns nothing
+//@   ensures true
